@@ -87,7 +87,8 @@ func (e zzErrUser) Error() string { return "user function " + e.fn + " failed" }
 
 // zzAddFuncs registers the standard recording functions:
 // f, g: injective filter functions; fail: always fails; failnum: fails on
-// numbers only; agg, agh: injective aggregates; aggfail: failing aggregate.
+// numbers only; agg, agh: injective aggregates; aggfail: failing aggregate;
+// aggid: returns its argument list.
 func zzAddFuncs(c *Config) {
 	mkFilter := func(name string) func(interface{}) (interface{}, error) {
 		return func(v interface{}) (interface{}, error) {
@@ -118,6 +119,27 @@ func zzAddFuncs(c *Config) {
 	})
 	c.SetAggregateFunction("agg", mkAgg("agg"))
 	c.SetAggregateFunction("agh", mkAgg("agh"))
+	// failrt fails with one of the library's own runtime errors (as a function
+	// does that calls Retrieve itself and returns that error unchanged)
+	c.SetFilterFunction("failrt", func(v interface{}) (interface{}, error) {
+		zzCallLog = append(zzCallLog, zzCall{fn: "failrt", args: []interface{}{v}})
+		return nil, ErrorMemberNotExist{errorBasicRuntime: &errorBasicRuntime{node: &syntaxBasicNode{text: ".zzforeign"}}}
+	})
+	// cnt: an aggregate with a plain JSON result (the number of arguments)
+	c.SetAggregateFunction("cnt", func(v []interface{}) (interface{}, error) {
+		cp := make([]interface{}, len(v))
+		copy(cp, v)
+		zzCallLog = append(zzCallLog, zzCall{fn: "cnt", args: cp, agg: true})
+		return float64(len(v)), nil
+	})
+	// aggid returns its argument list itself (a "collect" aggregate): whatever
+	// memory the library hands to a user function may end up in a result.
+	c.SetAggregateFunction("aggid", func(v []interface{}) (interface{}, error) {
+		cp := make([]interface{}, len(v))
+		copy(cp, v)
+		zzCallLog = append(zzCallLog, zzCall{fn: "aggid", args: cp, agg: true})
+		return v, nil
+	})
 	c.SetAggregateFunction("aggfail", func(v []interface{}) (interface{}, error) {
 		cp := make([]interface{}, len(v))
 		copy(cp, v)
